@@ -1,6 +1,6 @@
 (* C01 - Scanning is total.  Engine: for ANY registry whose searchers return (no raise, no hang) hits that are non-empty and in bounds, the scan returns a tree for every input, node and integer depth; a raising / hanging searcher makes the scan raise / hang (nothing is swallowed), and the in-bounds precondition is necessary (C01_needs_bounds).  Decoders: END-TO-END never-raise theorems for the shipped decoders (regex-shape facts discharged by vm_compute of a verified exploration on the regex terms regenerated from the source).  The read-only views (flatten, iteration, string_summary, node_to_dict) are total Gallina functions by construction; their only partial Python primitives (slicing, hex, repr) are total in Python too.  Statements pinned by harness/mkprop.py. *)
-From MD Require Import Lib.Base Model.Node Model.Engine Model.EngineR Model.Reference Model.Dec.ReLib Model.Dec.EscDec Model.Dec.Shell Model.Dec.Carets.
-From MD Require Import Proofs.EngineRefine Proofs.EngineDepth Proofs.EngineTotal Proofs.CaretsProofs Proofs.Shapes1.
+From MD Require Import Lib.Base Model.Node Model.Engine Model.EngineR Model.Reference Model.Dec.ReLib Model.Dec.EscDec Model.Dec.Shell Model.Dec.Carets Model.Dec.B64Hex Model.Dec.PathDec.
+From MD Require Import Proofs.EngineRefine Proofs.EngineDepth Proofs.EngineTotal Proofs.CaretsProofs Proofs.Shapes1 Proofs.Shapes2.
 
 (* pure registry: wf_search -> every scan returns a tree *)
 Theorem C01_engine_total : forall search : bytes -> list node, wf_search search -> forall (depth : Z) (data : bytes), exists t : node, scan search depth data = Ok t.
@@ -69,6 +69,59 @@ Print Assumptions C01_cmd_total.
 Theorem C01_powershell_total : forall data : bytes, find_powershell_strings data = Hang \/ (exists nodes : list node, find_powershell_strings data = Ok nodes).
 Proof. exact find_powershell_strings_never_raises. Qed.
 Print Assumptions C01_powershell_total.
+
+Theorem C01_hex_total : forall data : bytes, find_hex data = Hang \/ (exists nodes : list node, find_hex data = Ok nodes /\ Forall (hex_node_ok data) nodes).
+Proof. exact find_hex_total. Qed.
+Print Assumptions C01_hex_total.
+
+Theorem C01_FromHexString_total : forall data : bytes, find_FromHexString data = Hang \/ (exists (key : option Z) (nodes : list node), get_xorkey data = Ok key /\ B64HexProofs.key_ok key /\ find_FromHexString data = Ok nodes /\ Forall (fromhex_node_ok data key) nodes).
+Proof. exact find_FromHexString_total. Qed.
+Print Assumptions C01_FromHexString_total.
+
+Theorem C01_atob_total : forall data : bytes, find_atob data = Hang \/ (exists nodes : list node, find_atob data = Ok nodes /\ Forall (b64_node_ok (s2b "javascript.string") data) nodes).
+Proof. exact find_atob_total. Qed.
+Print Assumptions C01_atob_total.
+
+Theorem C01_Base64Decode_total : forall data : bytes, find_Base64Decode data = Hang \/ (exists nodes : list node, find_Base64Decode data = Ok nodes /\ Forall (b64_node_ok (s2b "vba.string") data) nodes).
+Proof. exact find_Base64Decode_total. Qed.
+Print Assumptions C01_Base64Decode_total.
+
+Theorem C01_FromBase64String_total : forall data : bytes, find_FromBase64String data = Hang \/ (exists (key : option Z) (nodes : list node), get_xorkey data = Ok key /\ B64HexProofs.key_ok key /\ find_FromBase64String data = Ok nodes /\ Forall (fromb64_node_ok data key) nodes).
+Proof. exact find_FromBase64String_total. Qed.
+Print Assumptions C01_FromBase64String_total.
+
+Theorem C01_base64_total : forall data : bytes, find_base64 data = Hang \/ (exists nodes : list node, find_base64 data = Ok nodes /\ Forall (base64_node_ok data) nodes).
+Proof. exact find_base64_total. Qed.
+Print Assumptions C01_base64_total.
+
+(* defect F3 (xor key above 255 -> ValueError) cannot recur: never raises for any key the regex admits *)
+Theorem C01_powershell_bytes_total : forall (xortool : bytes -> list bytes) (data : bytes), find_powershell_bytes xortool data = Hang \/ (exists nodes : list node, find_powershell_bytes xortool data = Ok nodes /\ Forall (psb_node_ok xortool data) nodes).
+Proof. exact find_powershell_bytes_total. Qed.
+Print Assumptions C01_powershell_bytes_total.
+
+Theorem C01_xorkey_total : forall data : bytes, get_xorkey data = Hang \/ (exists k : option Z, get_xorkey data = Ok k).
+Proof. exact get_xorkey_total. Qed.
+Print Assumptions C01_xorkey_total.
+
+Theorem C01_windows_path_total : forall (is_domain : bytes -> bool) (data : bytes), find_windows_path is_domain data = Hang \/ (exists nodes : list node, find_windows_path is_domain data = Ok nodes /\ Forall (wpath_node_ok data) nodes).
+Proof. exact find_windows_path_total. Qed.
+Print Assumptions C01_windows_path_total.
+
+Theorem C01_pe_files_total : forall (pe_size : bytes -> Z) (data : bytes), find_pe_files pe_size data = Hang \/ (exists nodes : list node, find_pe_files pe_size data = Ok nodes /\ Forall (PathDecProofs.pe_node_ok data) nodes /\ ((forall b : bytes, 0 <= pe_size b) -> Forall (fun n : node => 0 <= n_st n /\ n_st n < n_en n /\ n_en n <= blen data /\ n_val n <> []) nodes)).
+Proof. exact find_pe_files_total. Qed.
+Print Assumptions C01_pe_files_total.
+
+Theorem C01_executable_name_total : forall data : bytes, find_executable_name data = Hang \/ (exists nodes : list node, find_executable_name data = Ok nodes /\ Forall (hit_node_ok Regexes.RE_filename_EXECUTABLE_RE (s2b "executable.filename") data) nodes).
+Proof. exact find_executable_name_total. Qed.
+Print Assumptions C01_executable_name_total.
+
+Theorem C01_library_total : forall data : bytes, find_library data = Hang \/ (exists nodes : list node, find_library data = Ok nodes /\ Forall (hit_node_ok Regexes.RE_filename_LIBRARY_RE (s2b "executable.library.filename") data) nodes).
+Proof. exact find_library_total. Qed.
+Print Assumptions C01_library_total.
+
+Theorem C01_path_total : forall data : bytes, find_path data = Hang \/ (exists nodes : list node, find_path data = Ok nodes /\ Forall (hit_node_ok Regexes.RE_path_PATH_RE (s2b "path") data) nodes).
+Proof. exact find_path_total. Qed.
+Print Assumptions C01_path_total.
 
 Example C01_example :
   scan_r (run_all [find_xml_hex; find_chr; find_cmd_strings]) 10 (L"abc^" ++ [13]%N) = Ok (root_node (L"abc^" ++ [13]%N)).
